@@ -146,3 +146,7 @@ schema(xmlwriter.XMLWriter, _data='StringIO', _tag_stack='list[str]', _indent='i
        _indent_char='str', _newline_char='str')
 
 schema(girwriter.GIRWriter, sources_roots='list[str]', _namespace='Namespace?')
+
+from givc.contracts import helper_loop   # noqa
+# Callable.parameters setter: re-parents every parameter
+helper_loop('giscanner.ast.Callable._set_parameters', 1, {'invariant': ['True'], 'modifies': ['*.parent']})
